@@ -231,7 +231,7 @@ func strEq(a, b *Term) *Term {
 	if a.id > b.id {
 		a, b = b, a
 	}
-	return UF("str.eq", SBool, a, b)
+	return UF("gs.eq", SBool, a, b)
 }
 
 func mkSlice(ref, off, ln *Term) *Term { return Ctor("mkSlice", SSlice, ref, off, ln) }
